@@ -126,7 +126,7 @@ def exit_obligations(ctx: Ctx, I: Interp, field: str) -> None:
     ctx.min_count("Tag.__exit__ paths", n, 1)
 
 
-def wrapper_table(ctx: Ctx, I: Interp) -> None:
+def wrapper_table(ctx: Ctx, I: Interp, rule: str = "C17.wrap", only: Any = None) -> None:
     prog = ctx.prog
     where = f"{CORE}:wrap_displayhook_handler"
     fn = prog.function(CORE, "wrap_displayhook_handler")
@@ -152,6 +152,9 @@ def wrapper_table(ctx: Ctx, I: Interp) -> None:
         h, v = l.run.__dict__["o"]
         calls = [e for e in l.effects if e.kind == "call" and e.target is h]
         for k in sorted(v.kinds):
+            if only is not None and k not in only:
+                seen.setdefault(k, "-")
+                continue
             if k in ("TAG", "TAGLIST", "TAGIFIABLE_ONLY", "TAGIFIABLE_REPR", "JSXTAG"):
                 want = "value"
             elif k in ("REPR_ONLY", "HTMLSTR"):
@@ -173,11 +176,65 @@ def wrapper_table(ctx: Ctx, I: Interp) -> None:
             else:
                 got = f"{len(calls)} calls"
             seen[k] = got
-            ctx.check(got == want, "C17.wrap", f"displayed {k} value -> {want}", where, f"{k} -> {got}",
+            ctx.check(got == want, rule, f"displayed {k} value -> {want}", where, f"{k} -> {got}",
                       f"a displayed value of kind {k} is handled as `{got}`; the rule is `{want}` (tags/tagifiables appended as is, _repr_html_ "
                       f"objects kept as HTML, None and Ellipsis ignored, everything else passed to the child rules)",
                       witness="with div(): ...   # Ellipsis must be ignored" if k == "ELLIPSIS" else None)
     ctx.require({"TAG", "NONE", "ELLIPSIS", "REPR_ONLY", "STR"} <= set(seen), "wrap_displayhook_handler: dispatch table incomplete")
+
+
+def field_writers(ctx: Ctx, I: Interp, field: str) -> None:
+    """Who may write the saved-hook field: only __enter__/__exit__ (and the constructor) write it on an existing tag.  Any
+    other method that assigns `<receiver>.<field>` breaks "the hook is restored on exit" / "re-entry raises" for a tag
+    whose block is active."""
+    import ast as _ast
+    from ..frontend import iter_functions
+    prog = ctx.prog
+    allowed = {"Tag.__enter__", "Tag.__exit__", "Tag.__init__"}
+    n = 0
+    for mod in prog.modules.values():
+        if not mod.name.startswith("htmltools"):
+            continue
+        for qual, fn in iter_functions(mod):
+            stores = [t for st in _ast.walk(fn) if isinstance(st, (_ast.Assign, _ast.AugAssign, _ast.AnnAssign))
+                      for t in (st.targets if isinstance(st, _ast.Assign) else [st.target])
+                      if isinstance(t, _ast.Attribute) and t.attr == field]
+            dels = [t for st in _ast.walk(fn) if isinstance(st, _ast.Delete) for t in st.targets if isinstance(t, _ast.Attribute) and t.attr == field]
+            if not stores and not dels:
+                continue
+            n += 1
+            if qual in allowed and mod.name == CORE:
+                continue
+            if not fn.args.args:
+                continue
+            recv = fn.args.args[0].arg
+            on_self = [t for t in stores + dels if isinstance(t.value, _ast.Name) and t.value.id == recv]
+            # the receiver name must still denote the parameter (not re-bound to a copy) at the store: decided by Engine A
+            if on_self and qual.startswith("Tag."):
+                cfg = Config()
+                cfg.opaque_all = True
+
+                def mk(run: Any, fn: Any = fn):
+                    s_ = SObj("self", {"TAG"})
+                    run.__dict__["s"] = s_
+                    return ({fn.args.args[0].arg: s_}, s_)
+
+                bad = False
+                try:
+                    for l in I.run_function(mod.name, qual, mk, cfg):
+                        s_ = l.run.__dict__["s"]
+                        if any(e.kind in ("store_attr", "del_attr") and e.target is s_ and e.key == field for e in l.effects):
+                            bad = True
+                except Unmodelled:
+                    bad = True
+                ctx.check(not bad, "C17.field", f"{qual} does not write the saved-hook field of an existing tag", f"{mod.name}:{qual}",
+                          f"{qual}: {recv}.{field} = ...",
+                          f"{qual} assigns `{recv}.{field}` on the tag it is called on: if that tag's `with` block is active its saved hook is lost - "
+                          f"__exit__ then installs the wrong hook (or None) and a re-entry is no longer detected",
+                          witness="with t: copy(t)  # or str(t) / t.tagify(); leaving the block sets sys.displayhook = None")
+            else:
+                ctx.ok("C17.field", f"{qual} writes the field only on an object it created")
+    ctx.min_count(f"functions that write .{field}", n, 2)
 
 
 def check(ctx: Ctx) -> None:
@@ -193,4 +250,10 @@ def check(ctx: Ctx) -> None:
     I = Interp(ctx.prog)
     field = enter_obligations(ctx, I)
     exit_obligations(ctx, I, field)
+    field_writers(ctx, I, field)
     wrapper_table(ctx, I)
+    # what the hook passes on is appended with Tag.append: the child normaliser's dispatch table decides what is accepted,
+    # converted or rejected with TypeError (rules C14.table / C14.flatten / C14.accept, shared with C14)
+    from .c14 import _delegates, normaliser_tables
+    normaliser_tables(ctx)
+    _delegates(ctx, I, "append")
